@@ -74,3 +74,6 @@ def run(repo, res, tier):
     _ls.rule_comment_kind(repo, res)
     # no IndexError from looking at the first / last character of a text that may be empty
     parserules.rule_idx_guard(repo, res)
+    # values forwarded to another function land in the parameter that bears their name (no TypeError from swapped hooks)
+    from .. import hookrules as _hkao
+    _hkao.rule_arg_order(repo, res)
